@@ -4,6 +4,7 @@ import PhyloModel.Split.Model
 import PhyloModel.Matrix.Store
 import PhyloModel.Matrix.Phylip
 import PhyloModel.Dist.Fold
+import PhyloModel.Matrix.Upgma
 /-! Line-protocol driver: runs the executable definitions of the model, one request per line
     (tab-separated fields), one answer line per request.  See /verif/PROTOCOL.md.
     Unknown or ill-formed requests answer `bad-op`; nothing is ever defaulted. -/
@@ -173,6 +174,18 @@ def encPRes {β : Type} (f : β → String) : PHY.PRes β → String
   | .err k => "err " ++ k
   | .panic => "panic"
 
+def decRat (s : String) : Option Rat :=
+  match s.splitOn "/" with
+  | [p] => p.toInt?.map (fun (i : Int) => (i : Rat))
+  | [p, q] => do let p ← p.toInt?; let q ← q.toNat?; if q = 0 then none else pure (mkRat p q)
+  | _ => none
+def encRat (r : Rat) : String := if r.den = 1 then toString r.num else s!"{r.num}/{r.den}"
+
+partial def encURose : UPG.URose → String
+  | .node n l ks =>
+    (if ks.isEmpty then "" else "(" ++ ",".intercalate (ks.map encURose) ++ ")") ++
+    (match n with | some s => "h" ++ hexEnc s | none => "-") ++ ":" ++ (match l with | some r => encRat r | none => "-")
+
 def fmtOfNat : Nat → Option FM.Fmt
   | 0 => some .allFields | 1 => some .topology | 2 => some .noComments | 3 => some .onlyNames
   | 4 => some .onlyLengths | 5 => some .leafLengthsAllNames | 6 => some .leafLengthsLeafNames
@@ -305,6 +318,14 @@ def dispatch (st : DState) (fs : List String) : DState × String :=
   | ["ar.swap"] => ({ st with ar := st.ar2, ar2 := st.ar }, "ok")
   | "sp" :: q => match spQuery st.ar st.ar2 q with | some r => (st, r) | none => bad
   | ["nop"] => (st, "ok")
+  | ["up.run", taxa, cells] =>
+    match decTaxa taxa, (if cells == "_" then some [] else (words cells).mapM decRat) with
+    | some t, some c =>
+      match UPG.upgma t c.toArray with
+      | .ok (r, m, tie, dy) => (st, s!"ok {encURose r} {match m with | some g => encRat g | none => "-"} {encBool tie} {encBool dy}")
+      | .err k => (st, "err " ++ k)
+      | .panic => (st, "panic")
+    | _, _ => bad
   | "dm" :: q =>
     let enc (r : List String × List Int) : String :=
       (if r.1.isEmpty then "_" else ",".intercalate (r.1.map hexEnc)) ++ " | " ++ " ".intercalate (r.2.map toString)
